@@ -2,19 +2,47 @@
 import re, os
 _here = os.path.dirname(os.path.abspath(__file__))
 X86FMT = ['asmjit/x86/x86formatter.cpp', 'asmjit/core/formatter.cpp', 'asmjit/core/string.cpp']
+_common = dict(extra_c=['verif_printf.c'], wrap=['malloc', 'realloc'])
 UNITS = [
-    Unit('x86op', harness=['h_x86fmt.cpp'], repo_units=X86FMT, extra_c=['verif_printf.c'], wrap=['malloc', 'realloc'], cbmc_defines=['VERIF_DIVC', 'VERIF_MEM_LOOPS']),
-    Unit('x86mem', harness=['h_x86mem.cpp'], repo_units=X86FMT, extra_c=['verif_printf.c'], wrap=['malloc', 'realloc'], cbmc_defines=['VERIF_DIVC', 'VERIF_MEM_LOOPS']),
-    Unit('x86line', harness=['h_x86line.cpp'], repo_units=X86FMT, extra_c=['verif_printf.c'], wrap=['malloc', 'realloc'], cbmc_defines=['VERIF_DIVC', 'VERIF_MEM_LOOPS', 'VERIF_MEM_LOOPS_ALL']),
+    Unit('x86op', harness=['h_x86fmt.cpp'], repo_units=X86FMT, cbmc_defines=['VERIF_DIVC', 'VERIF_MEM_LOOPS'], **_common),
+    Unit('x86mem', harness=['h_x86mem.cpp'], repo_units=X86FMT, cbmc_defines=['VERIF_DIVC', 'VERIF_MEM_LOOPS'], **_common),
+    Unit('x86line', harness=['h_x86line.cpp'], repo_units=X86FMT, cbmc_defines=['VERIF_DIVC', 'VERIF_MEM_LOOPS', 'VERIF_MEM_LOOPS_ALL'], **_common),
+    Unit('mcode', harness=['h_mcode.cpp'], repo_units=['asmjit/core/emitterutils.cpp', 'asmjit/core/string.cpp', 'asmjit/core/logger.cpp'], cbmc_defines=['VERIF_DIVC', 'VERIF_MEM_LOOPS'], **_common),
+    Unit('label', harness=['h_label.cpp'], repo_units=['asmjit/core/formatter.cpp', 'asmjit/core/string.cpp'], cbmc_defines=['VERIF_DIVC', 'VERIF_MEM_LOOPS'], **_common),
+    Unit('a64op', harness=['h_a64fmt.cpp'], repo_units=['asmjit/arm/armformatter.cpp', 'asmjit/core/string.cpp'], cbmc_defines=['VERIF_DIVC', 'VERIF_MEM_LOOPS'], **_common),
+    Unit('a64mem', harness=['h_a64mem.cpp'], repo_units=['asmjit/arm/armformatter.cpp', 'asmjit/core/string.cpp'], cbmc_defines=['VERIF_DIVC', 'VERIF_MEM_LOOPS'], **_common),
 ]
 def _fns(src):
     return re.findall(r'^HARNESS (h_\w+)\(\)', open(os.path.join(_here, src)).read(), re.M)
 HARNESSES = []
-for unit, src in (('x86op', 'h_x86fmt.cpp'), ('x86mem', 'h_x86mem.cpp'), ('x86line', 'h_x86line.cpp')):
+for unit, src in (('x86op', 'h_x86fmt.cpp'), ('x86mem', 'h_x86mem.cpp')):
   for fn in _fns(src):
     wide = fn.endswith('_wide') or fn.endswith('imm_32')
     HARNESSES.append(Harness(unit, fn, unwind=18, mem_gb=6, timeout=900 if not wide else 3600, tiers=('thorough',) if wide else ('quick', 'thorough'),
         bounds='register type / operand shape constant per harness; ids, size, segment, shift, displacement, immediate and all format flags symbolic; decimal numbers bounded as the template arguments say (hexadecimal: full width)'))
+# x86 instruction line. Cheap harnesses (everything that decides a length is a constant) get a small memory reservation so that they run side by side.
+_line_sym = ('_w_vex', '_w_form', '_w_lock', '_w_rep', '_w_repreg', '_x_', '_full6', '_id', '_badid')
+for fn in _fns('h_x86line.cpp'):
+    heavy = any(t in fn for t in _line_sym)
+    HARNESSES.append(Harness('x86line', fn, unwind=100, mem_gb=6 if heavy else 2, timeout=900,
+        bounds='operands and mnemonic are fixed-length tokens from harness stubs; h_x86line_w_*: the option words of one group symbolic (others off), no operands; '
+               'h_x86line_x_*: one symbolic group in front of 1 or 3 operands; the others: options constant per harness, 0..6 operands; register ids, immediate value, mask '
+               'register id 1..7, broadcast within {2,4,8} / {16,32,64}, instruction id (h_x86line_id: every defined id; h_x86line_badid: the 65536 ids above the last defined one) '
+               'and the format flags (except kExplainImms) symbolic'))
+for fn in _fns('h_mcode.cpp'):
+    HARNESSES.append(Harness('mcode', fn, unwind=33, mem_gb=4, timeout=900, bounds='TODO'))
+for fn in _fns('h_label.cpp'):
+    HARNESSES.append(Harness('label', fn, unwind=28, mem_gb=4, timeout=900, bounds='TODO'))
+for unit, src in (('a64op', 'h_a64fmt.cpp'), ('a64mem', 'h_a64mem.cpp')):
+  for fn in _fns(src):
+    m = re.search(r'_kf_(\w+)$', fn)
+    HARNESSES.append(Harness(unit, fn, unwind=26, mem_gb=4, timeout=900, known=m.group(1) if m else None, bounds='TODO'))
 EXPLANATION = 'bounded symbolic execution (CBMC) of the real formatter compiled from /repo; the produced text is matched token by token against names from the architecture manuals and numbers are parsed back'
-OUTSIDE = []
-ASSUMPTIONS = ['vsnprintf/snprintf are modelled by tools/verif_printf.c (%%, %c, %s, %d, %u, %zu, %0Nu); the native twin runs libc, and translator validation compares the two on random runs']
+OUTSIDE = [
+    'x86 instruction line: combinations of option words from different groups other than "all set" / "none set" (the formatter appends the groups one after the other; each group is decided with all its combinations)',
+    'x86 instruction line: FormatFlags::kExplainImms (the explanation of an immediate is commentary, not denotation); undefined instruction ids above _kIdCount + 65535 (32-bit decimal parse-back is not decided by SAT in the budget)',
+]
+ASSUMPTIONS = [
+    'vsnprintf/snprintf are modelled by tools/verif_printf.c (%%, %c, %s, %d, %u, %zu, %0Nu); the native twin runs libc, and translator validation compares the two on random runs',
+    'x86mem / x86line: x86::FormatterInternal::format_register (and in x86line format_operand and InstInternal::inst_id_to_string) are harness stubs that append a fixed-length token encoding their arguments; their own text is decided by the x86op unit (mnemonics: C13)',
+]
